@@ -79,13 +79,19 @@ structure Layout where
   name : String
   names : List String
   isLfe : List Bool
-deriving Repr
+deriving DecidableEq, Repr
+
+/-- `self.input_layouts is not None and input_layout not in self.input_layouts` is false. -/
+def inFilter (f : Option (List String)) (name : String) : Bool :=
+  match f with
+  | some ls => ls.contains name
+  | none => true
 
 /-- `MappingRule.apply(input_layout, speakerLabel, output_layout)`. -/
 def MappingRule.apply (r : MappingRule) (inputLayout label : String) (out : Layout) :
     Option (List (String × Rat)) :=
-  if (match r.inputLayouts with | some ls => !ls.contains inputLayout | none => false) then none
-  else if (match r.outputLayouts with | some ls => !ls.contains out.name | none => false) then none
+  if !inFilter r.inputLayouts inputLayout then none
+  else if !inFilter r.outputLayouts out.name then none
   else if label != r.label then none
   else if r.gains.all (fun p => out.names.contains p.1) then some r.gains
   else none
